@@ -519,8 +519,14 @@ structure Basis where
 
 /-- does the constructor accept?  (every failing test throws std::invalid_argument; the order only matters for
     which message is shown) -/
-def coopAccepts (checksDiscount : Bool) (g : Graph) (mats : List Mat) (bases : List Basis) (d : XRat) : Bool :=
-  !(checksDiscount && (discGuard .dense).eval d) &&
+def coopDiscountRejected (d : XRat) : Bool :=
+  -- the constructor's own numeric guard, if the source has one (none on the tree as first read)
+  match AITB.Guard.findSite AITB.Gen.Guards.sites "src/Factored/MDP/CooperativeModel.cpp" "CooperativeModel" with
+  | some s => s.g.eval d
+  | none => false
+
+def coopAccepts (discountRejected : Bool) (g : Graph) (mats : List Mat) (bases : List Basis) : Bool :=
+  !discountRejected &&
   g.S.length != 0 && g.A.length != 0 &&
   g.parents.length == g.S.length &&
   mats.length == g.S.length &&
